@@ -324,6 +324,9 @@ def probes(s, limit=40, depth=0):
             out.append(dict((k, _fresh(v[k])) for k in reversed(list(v))))
     for b in _uniq(h["nums"])[:4]:
         out.extend(_num_near(b))
+    if h["nums"] or any(t in ("integer", "number") for t in h["types"]):
+        # numbers no float can hold, the largest and smallest floats, the first integer floats cannot tell apart
+        out += [10 ** 400, -(10 ** 400), 2 ** 1024, 1e308, 5e-324, 2 ** 53 + 1, float(2 ** 53), -0.0]
     for kw in ("multipleOf", "divisibleBy"):
         dv = s.get(kw)
         if isinstance(dv, int) and not isinstance(dv, bool) and dv > 0:
